@@ -308,7 +308,9 @@ def geodesic_facts(tree):
     wt = _one(w, 'geodesic_matrix[fastcore]: weight test')
     F['fcWeightCmp'], F['fcWeightLit'] = _op(wt.test.ops[0]), _const(wt.test.comparators[0])
     pd_ = _one(_calls(wt.body, 'parent_dist'), 'geodesic_matrix[fastcore]: parent_dist call')
-    F['fcParentDistArgs'] = [_u(a) for a in pd_.args]
+    # the cast of the coordinates is a fact of its own (pdFcCoords / gmFcCoords); the argument list is recorded without it
+    F['fcParentDistArgs'] = [_u(_strip_casts(a)) for a in pd_.args]
+    F['gmFcCoords'] = [_operand_kind(a) for a in pd_.args if _mentions_xyz(a)]
     F['fcParentDistRootDist'] = _u(_kw(pd_, 'root_dist')) if _kw(pd_, 'root_dist') is not None else 'None'
     blk, env_t, env_e, G = from_block(fc, 'geodesic_matrix[fastcore]')
     F['fcFrom'] = G
@@ -442,6 +444,7 @@ def generate_segments_facts(tree):
     F['fcWeightCmp'], F['fcWeightLit'] = _op(w.test.ops[0]), _const(w.test.comparators[0])
     pdc = _one(_calls(w.body, 'parent_dist'), '_generate_segments[fastcore]: parent_dist')
     F['fcRootDist'] = _u(_kw(pdc, 'root_dist')) if _kw(pdc, 'root_dist') is not None else 'None'
+    F['sgFcCoords'] = [_operand_kind(a) for a in pdc.args if _mentions_xyz(a)]
     gs = _one(_calls(fc, 'generate_segments'), '_generate_segments[fastcore]: accelerator call')
     F['fcArgs'], F['fcKws'] = [_u(a) for a in gs.args], _kws(gs)
     # python path
@@ -937,6 +940,9 @@ def generate(repo: Path):
     L.append('/-- the coordinate argument handed to navis-fastcore `parent_dist` by `parent_dist` / `cable_length` -/')
     L.append(f'def pdFcCoords : List String := {lstrs(M["pdFcCoords"])}')
     L.append(f'def clFcCoords : List String := {lstrs(M["clFcCoords"])}')
+    L.append('/-- the same for the `parent_dist` calls inside `geodesic_matrix` and `_generate_segments` (fastcore branches) -/')
+    L.append(f'def gmFcCoords : List String := {lstrs(G["gmFcCoords"])}')
+    L.append(f'def sgFcCoords : List String := {lstrs(S["sgFcCoords"])}')
     L.append('')
     L.append('/-! ### `TreeNeuron` views: (callee, positional arguments, keywords, decorators) -/')
     for prop in ('segments', 'small_segments', 'cable_length', 'adjacency_matrix', 'geodesic_matrix'):
